@@ -3,6 +3,8 @@ C05 for ATSP: the mask hides nothing — every permutation of the nodes is a mas
 the environment declares finished; together with C01 the set of complete mask-confined episodes IS
 the set of feasible tours, so the best reward reachable through the mask is the optimum.
 -/
+import Rl4co.Props.C03.Atsp
+import Rl4co.Proofs.TspfamOpt
 import Rl4co.Proofs.TspfamAtsp
 import Rl4co.Spec.Atsp
 import Rl4co.Props.C01.Atsp
@@ -24,5 +26,19 @@ theorem complete_run_iff_feasible (i : Inst) (hpos : 0 < i.n) (as : List Nat) :
 
 /-- Non-vacuity. -/
 example : Spec.Atsp.Feasible 3 [2, 0, 1] := (Spec.Tsp.feasible_iff 3 [2, 0, 1]).mp (by decide)
+
+/-- **C05 (ATSP), the optimum stays reachable.** -/
+theorem opt_reachable (i : Inst) (hpos : 0 < i.n) :
+    ∃ as s, Run env i (env.reset i) as s ∧ env.done i s = true ∧
+      (∀ bs, Spec.Atsp.Feasible i.n bs → Spec.Atsp.objective i.M as ≤ Spec.Atsp.objective i.M bs) ∧
+      (∀ bs t, Run env i (env.reset i) bs t → env.done i t = true → reward i bs ≤ reward i as) := by
+  obtain ⟨as, hperm, hmin⟩ := exists_min_perm (List.range i.n) (Spec.Atsp.objective i.M)
+  have hfeas : ∀ bs, Spec.Atsp.Feasible i.n bs → Spec.Atsp.objective i.M as ≤ Spec.Atsp.objective i.M bs :=
+    fun bs hb => hmin bs ((Spec.Tsp.feasible_iff_perm i.n bs).mp hb)
+  obtain ⟨s, hrun, hd⟩ := run_of_feasible i hpos ((Spec.Tsp.feasible_iff_perm i.n as).mpr hperm)
+  refine ⟨as, s, hrun, hd, hfeas, ?_⟩
+  intro bs t hr hdt
+  rw [reward_eq_objective, reward_eq_objective]
+  have := hfeas bs (feasible_of_run i hr hdt); omega
 
 end Rl4co.Atsp
